@@ -9,6 +9,7 @@ import tokenize
 import engine
 import pegcheck
 import realrun
+import render
 import tlc
 from common import MachineryFailure
 
@@ -22,7 +23,7 @@ CONSTRUCTORS = ['Seq', 'List', 'Left', 'Right', 'Opt', 'Some', 'Sep', 'Choice', 
                 'Fail', 'Backtrack', 'Let', 'Where', 'Apply', 'Rule', 'Class', 'Call', 'Ref', 'Str', 'Regex', 'Byte',
                 'Discard', 'KeywordArg', 'OperatorTable', 'PythonExpression']
 # locals and parameters of the runtime's own functions, and the lambda parameter the renderer uses
-RUNTIME_LOCALS = ['text', 'pos', 'fullparse', 'node', 'stack', 'memo', 'key', 'gtor', 'result', 'visited', 'callbacks',
+RUNTIME_LOCALS = ['operand', 'operator', 'prec', 'text', 'pos', 'fullparse', 'node', 'stack', 'memo', 'key', 'gtor', 'result', 'visited', 'callbacks',
                   'field', 'child', 'parent', 'kw', 'other', 'index', 'column', 'message', 'start_pos', 'v_']
 # identifiers that merely START with a word of the grammar language
 LANGUAGE_PREFIXES = ['letter', 'Nonempty', 'Truely', 'Falsey', 'wherever', 'inward', 'classy', 'passing', 'ignoreme',
@@ -62,16 +63,50 @@ def source_worker(case):
 engine.register('source_worker', source_worker)
 
 
-def enumerate_cases(chk, pool, label):
+def enumerate_cases(chk, pool, label, dyn=False):
     d = tlc.scratch('pool-')
     path = os.path.join(d, 'pool.ndjson')
     try:
         with open(path, 'w') as f:
             for n in pool:
-                f.write(json.dumps({'name': n}) + '\n')
+                f.write(json.dumps({'name': n, 'dyn': dyn}) + '\n')
         return pegcheck.collect(chk, 'MC_C20', 'MC_C20', env={'POOL': path}, timeout_s=3000, label=label)
     finally:
         shutil.rmtree(d, ignore_errors=True)
+
+
+SPLIT = ('ZW', 'ZB', 'ZC')
+
+
+def split_worker(case):
+    """The renamed grammar as two modules: everything but ZW/ZB/ZC in a base module, those three rules in a module that
+    extends it (the names a grammar inherits count like its own)."""
+    import sys
+    cid = case['id']
+    g = case['g']
+    base = {'rules': {k: v for k, v in g['rules'].items() if k not in SPLIT}, 'ign': [], 'start': 'start'}
+    child = {'rules': {k: v for k, v in g['rules'].items() if k in SPLIT}, 'ign': [], 'start': ''}
+    a, b = 'vg_c20a_%d' % cid, 'vg_c20b_%d' % cid
+    try:
+        b1 = realrun.build(render.grammar(base, name=a))
+        if b1[0] != 'ok':
+            return {'id': cid, 'desc': render.grammar(base, name=a), 'build': list(b1), 'obs': []}
+        desc = render.grammar(child, name=b, extends=a)
+        b2 = realrun.build(desc)
+        if b2[0] != 'ok':
+            return {'id': cid, 'desc': desc, 'build': list(b2), 'obs': []}
+        mod = b2[1]
+        obs = []
+        for run in case['runs']:
+            obs.append(realrun.call_parse(mod, getattr(mod, run[0]).parse, realrun.to_text(run[1]), run[2], True,
+                                          per_case_timeout=2.0))
+        return {'id': cid, 'desc': render.grammar(base, name=a) + '\n' + desc, 'build': ['ok'], 'obs': obs}
+    finally:
+        sys.modules.pop(a, None)
+        sys.modules.pop(b, None)
+
+
+engine.register('split_worker', split_worker)
 
 
 def tagger(case, run, exp, obs, why):
@@ -99,7 +134,7 @@ def run(chk):
                         'module; additionally the words the grammar language itself reserves are not used as new names',
                         'known findings are identified by (pool name, role, failure signature)']
     taken = {'Item', 'Word', 'Pair', 'key', 'val', 'gap', 'Wrap', 'p', 'tmp', 'Box', 'q', 'it', 'n', 'stars', 'start', 'm', 'xs',
-             'Cnt', 'more', 'Zlast'}
+             'Cnt', 'more', 'Zlast', 't', 'Tab', 'Tuse', 'ZW', 'ZB', 'ZC'}
     fixed = [n for n in dict.fromkeys(TEMPORARIES + BUILTINS + CONSTRUCTORS + RUNTIME_LOCALS + LANGUAGE_PREFIXES + PLAIN) if usable(n, taken)]
     if chk.tier == 'quick':
         fixed = fixed[::1]
@@ -111,13 +146,25 @@ def run(chk):
     if rec['build'][0] != 'ok':
         raise MachineryFailure('cannot obtain generated source: %r' % (rec['build'],))
     dyn = sorted(n for n in source_identifiers(rec['obs'][0]) if usable(n, taken) and n not in fixed)
-    if chk.tier == 'quick':
-        dyn = dyn[:: max(1, len(dyn) // 60)]
     chk.notes['dynamic_pool'] = len(dyn)
     chk.notes['dynamic_pool_sample'] = dyn[:25]
-    cases2 = enumerate_cases(chk, dyn, 'MC_C20(dynamic pool)') if dyn else []
+    cases2 = enumerate_cases(chk, dyn, 'MC_C20(dynamic pool)', dyn=True) if dyn else []
     allc = cases + cases2
+    ill = [c for c in allc if any(e[0] == 'ill' for e in c['exp'])]
+    if ill:     # the renaming of the specification must itself be complete (a run it calls ill-formed is never compared)
+        raise MachineryFailure('renamed grammar ill-formed in the specification: %r' % (ill[0].get('cfg'),))
     for i, c in enumerate(allc):
         c['id'] = i
         c['cfg'] = dict(c.get('cfg') or {}, timeout_scale=0.4)      # tiny grammars, tiny inputs: 2 s (12 s to confirm)
     pegcheck.replay(chk, allc, tagger=tagger, sample_every=2999)
+    # the same renamed grammars split over a base and a derived module (template roles)
+    split = []
+    for c in allc:
+        cfg = c.get('cfg') or {}
+        if cfg.get('role') in ('template', 'class template') and not cfg.get('dyn'):
+            keep = [i for i, r in enumerate(c['runs']) if r[0] in SPLIT]
+            c2 = dict(c, id=len(split), runs=[c['runs'][i] for i in keep], exp=[c['exp'][i] for i in keep])
+            c2['cfg'] = dict(cfg, split=True)
+            split.append(c2)
+    chk.notes['split_module_cases'] = len(split)
+    pegcheck.replay(chk, split, tagger=tagger, sample_every=997, fn='split_worker')
